@@ -658,6 +658,11 @@ def r13_8(ctx):
             el = n.value.elt
             if norm(ge.iter) == text_p and not ge.ifs and isinstance(el, ast.Call) and norm(expand_alias(el.func, aliases)) == "get_character_cell_size" and len(el.args) == 1 and norm(el.args[0]) == norm(ge.target):
                 sizes = norm(n.targets[0])
+        # list(map(get_character_cell_size, text)) is the same list
+        if isinstance(n, ast.Assign) and isinstance(n.value, ast.Call) and norm(n.value.func) == "list" and len(n.value.args) == 1:
+            mp = n.value.args[0]
+            if isinstance(mp, ast.Call) and norm(mp.func) == "map" and len(mp.args) == 2 and norm(expand_alias(mp.args[0], aliases)) == "get_character_cell_size" and norm(mp.args[1]) == text_p:
+                sizes = norm(n.targets[0])
     ctx.check(sizes is not None, f.fq, "character_sizes = [size(c) for c in text]", f.where, "one cell size per character of the whole string", "set_cell_size no longer builds the list of per-character cell sizes of its whole argument")
     if sizes is None:
         return
@@ -671,10 +676,14 @@ def r13_8(ctx):
     t = lp.test
     conj = [norm(x) for x in (t.values if isinstance(t, ast.BoolOp) and isinstance(t.op, ast.And) else [t])]
     exv = None
+    _keep_names = {norm(x.targets[0]) for x in walk_local(f.node) if isinstance(x, ast.Assign) and len(x.targets) == 1 and sizes is not None and norm(x.value) == f"len({sizes})"}
     for c in conj:
-        if c.endswith(" > 0"):
+        if c.endswith(" > 0") and c[:-4] not in _keep_names:
             exv = c[:-4]
-    ok = exv is not None and sizes in conj
+    # shape B: an index `keep` counts the characters still kept (initially len(sizes)) instead of popping the list
+    keeps = [norm(x.targets[0]) for x in walk_local(f.node) if isinstance(x, ast.Assign) and len(x.targets) == 1 and isinstance(x.targets[0], ast.Name) and norm(x.value) == f"len({sizes})" and x.lineno < lp.lineno]
+    keep = keeps[0] if len(keeps) == 1 and (f"{keeps[0]} > 0" in conj or keeps[0] in conj) else None
+    ok = exv is not None and (sizes in conj or keep is not None) and len(conj) == 2
     ctx.check(ok, f.fq, f"while {norm(t)}", f"{m.relpath}:{lp.lineno}", "loop runs while cells are still in excess and characters remain",
               f"crop loop condition `{norm(t)}` is not `excess > 0 and {sizes}`: it stops early (result too wide) or removes one character too many")
     if exv is None:
@@ -701,12 +710,22 @@ def r13_8(ctx):
     ctx.check(init_ok, f.fq, f"{exv} = cell_len(text) - total", f"{m.relpath}:{lp.lineno}", "excess starts as measured cells minus requested cells", f"`{exv}` is not initialised to cell_len({text_p}) - {total_p}")
     body = [b for b in lp.body]
     okb = len(body) == 1 and isinstance(body[0], ast.AugAssign) and isinstance(body[0].op, ast.Sub) and norm(body[0].target) == exv and isinstance(body[0].value, ast.Call) and not body[0].value.args and norm(expand_alias(body[0].value.func, aliases)) == f"{sizes}.pop"
+    if keep is not None:
+        texts = [norm(b) for b in body]
+        okb = texts in ([f"{keep} -= 1", f"{exv} -= {sizes}[{keep}]"], [f"{exv} -= {sizes}[{keep} - 1]", f"{keep} -= 1"])
     ctx.check(okb, f.fq, " ; ".join(norm(b) for b in body), f"{m.relpath}:{lp.lineno}", "each step drops the last character's size from the list and from excess (invariant kept)",
               f"the loop body is not exactly `{exv} -= {sizes}.pop()`: the removed cells and the removed characters get out of step")
     # after the loop: prefix of len(sizes) characters
-    after = [n for n in walk_local(f.node) if isinstance(n, ast.Assign) and norm(n.targets[0]) == text_p and isinstance(n.value, ast.Subscript) and n.lineno > lp.lineno]
-    okp = len(after) == 1 and isinstance(after[0].value.slice, ast.Slice) and after[0].value.slice.lower is None and after[0].value.slice.upper is not None and norm(after[0].value.slice.upper) == f"len({sizes})" and norm(after[0].value.value) == text_p
-    ctx.check(okp, f.fq, norm(after[0]) if after else "?", f"{m.relpath}:{lp.lineno}", "kept text = as many leading characters as sizes remain", f"the kept text is not `{text_p}[:len({sizes})]`")
+    after = [n for n in walk_local(f.node) if isinstance(n, ast.Assign) and isinstance(n.targets[0], ast.Name) and isinstance(n.value, ast.Subscript) and norm(n.value.value) == text_p and n.lineno > lp.lineno]
+    upper = keep if keep is not None else f"len({sizes})"
+    okp = len(after) == 1 and isinstance(after[0].value.slice, ast.Slice) and after[0].value.slice.lower is None and after[0].value.slice.upper is not None and norm(after[0].value.slice.upper) == upper and after[0].value.slice.step is None
+    ctx.check(okp, f.fq, norm(after[0]) if after else "?", f"{m.relpath}:{lp.lineno}", "kept text = as many leading characters as sizes remain", f"the kept text is not `{text_p}[:{upper}]`")
+    if okp:
+        res = norm(after[0].targets[0])
+        pads = [x for x in walk_local(f.node) if isinstance(x, ast.If) and norm(x.test) in (f"{exv} == -1", f"-1 == {exv}", f"{exv} < 0") and len(x.body) == 1 and norm(x.body[0]) == f"{res} += ' '" and not x.orelse and x.lineno > after[0].lineno]
+        rets = [r for r in walk_local(f.node) if isinstance(r, ast.Return) and r.lineno > lp.lineno]
+        ctx.check(len(pads) == 1 and len(rets) == 1 and norm(rets[0].value) == res, f.fq, f"if {exv} == -1: {res} += ' '", f"{m.relpath}:{after[0].lineno}", "one space makes up for half of a double-width character that was cut",
+                  f"the result is not `{res}` plus exactly one space when the excess ended at -1: the string is one cell short (or long) after cutting through a double-width character")
 
 
 def r13_9(ctx):
@@ -723,18 +742,30 @@ def r13_9(ctx):
             ge = lc.generators[0]
             if norm(ge.iter) == text_p and not ge.ifs and isinstance(lc.elt, ast.Tuple) and norm(lc.elt.elts[0]) == norm(ge.target) and isinstance(lc.elt.elts[1], ast.Call) and norm(expand_alias(lc.elt.elts[1].func, aliases)) == "get_character_cell_size":
                 chars = norm(n.targets[0])
-    ctx.check(chars is not None, f.fq, "characters = [(c, size(c)) for c in text][::-1]", f.where, "every character of the argument with its size, reversed for popping from the end", "chop_cells no longer builds the reversed list of (character, size) over its whole argument")
+    # second accepted shape: plain forward iteration `for ch in text:` with `size = get_character_cell_size(ch)` in the body
+    fwd = None
     if chars is None:
+        for n in walk_local(f.node):
+            if isinstance(n, ast.For) and norm(n.iter) == text_p and isinstance(n.target, ast.Name) and not n.orelse:
+                szs = [b for b in n.body if isinstance(b, ast.Assign) and len(b.targets) == 1 and isinstance(b.targets[0], ast.Name) and isinstance(b.value, ast.Call) and norm(expand_alias(b.value.func, aliases)) == "get_character_cell_size" and len(b.value.args) == 1 and norm(b.value.args[0]) == n.target.id]
+                if len(szs) == 1:
+                    fwd = (n, n.target.id, szs[0].targets[0].id)
+    ctx.check(chars is not None or fwd is not None, f.fq, "characters = [(c, size(c)) for c in text][::-1]  |  for c in text: size = size(c)", f.where, "every character of the argument is visited once, in order, with its cell size",
+              "chop_cells no longer visits every character of its whole argument in order with its cell size (neither the reversed (character, size) list popped from the end nor a plain `for character in text`)")
+    if chars is None and fwd is None:
         return
-    loops = [n for n in walk_local(f.node) if isinstance(n, ast.While) and norm(n.test) == chars]
-    ctx.check(len(loops) == 1, f.fq, f"while {chars}", f.where, "loop until every character is placed", "chop_cells does not loop until the character list is empty")
-    if not loops:
-        return
-    lp = loops[0]
-    first = lp.body[0]
-    okf = isinstance(first, ast.Assign) and isinstance(first.targets[0], ast.Tuple) and isinstance(first.value, ast.Call) and norm(expand_alias(first.value.func, aliases)) == f"{chars}.pop" and not first.value.args
-    ch, sz = (norm(e) for e in first.targets[0].elts) if okf else ("character", "size")
-    ctx.check(okf, f.fq, norm(first), f"{m.relpath}:{first.lineno}", "next character taken from the end of the reversed list (original order)", "characters are not taken one by one from the end of the reversed list")
+    if fwd is not None:
+        lp, ch, sz = fwd
+    else:
+        loops = [n for n in walk_local(f.node) if isinstance(n, ast.While) and norm(n.test) == chars]
+        ctx.check(len(loops) == 1, f.fq, f"while {chars}", f.where, "loop until every character is placed", "chop_cells does not loop until the character list is empty")
+        if not loops:
+            return
+        lp = loops[0]
+        first = lp.body[0]
+        okf = isinstance(first, ast.Assign) and isinstance(first.targets[0], ast.Tuple) and isinstance(first.value, ast.Call) and norm(expand_alias(first.value.func, aliases)) == f"{chars}.pop" and not first.value.args
+        ch, sz = (norm(e) for e in first.targets[0].elts) if okf else ("character", "size")
+        ctx.check(okf, f.fq, norm(first), f"{m.relpath}:{first.lineno}", "next character taken from the end of the reversed list (original order)", "characters are not taken one by one from the end of the reversed list")
     ifs = [b for b in lp.body if isinstance(b, ast.If)]
     ctx.check(len(ifs) == 1, f.fq, "overflow test", f"{m.relpath}:{lp.lineno}", "one overflow test per character", "chop_cells loop has no single overflow test")
     if not ifs:
@@ -752,13 +783,14 @@ def r13_9(ctx):
 
     def appends(body):
         out = 0
+        local_lists = {norm(b.targets[0]) for b in body if isinstance(b, ast.Assign) and len(b.targets) == 1 and norm(b.value) == f"[{ch}]"}
         for b in body:
             if not isinstance(b, (ast.Expr, ast.Assign)):
                 continue  # only unconditional statements of the branch count
             for c in ast.walk(b):
                 if isinstance(c, ast.Call) and c.args:
                     fn = norm(expand_alias(c.func, aliases))
-                    if fn.endswith(".append") and (norm(c.args[0]) == ch or norm(c.args[0]) == f"[{ch}]"):
+                    if fn.endswith(".append") and (norm(c.args[0]) == ch or norm(c.args[0]) == f"[{ch}]" or (norm(c.args[0]) in local_lists and fn == "lines.append")):
                         out += 1
                     elif isinstance(c.func, ast.Name) and c.func.id == "append" and norm(c.args[0]) == ch:
                         out += 1
@@ -771,6 +803,19 @@ def r13_9(ctx):
     ctx.check(new_ok and same_ok, f.fq, f"{tot} = {sz} / {tot} += {sz}", f"{m.relpath}:{iff.lineno}", "running size restarts at the character's size on a new piece and grows by it otherwise",
               "the running size is not reset to the character's size on a new piece / increased by it otherwise: later pieces overflow or are cut short")
     ctx.check(any(isinstance(n, ast.Assign) and norm(n.targets[0]) == tot and norm(n.value) == pos_p for n in walk_local(f.node)), f.fq, f"{tot} = {pos_p}", f.where, "running size starts at the given position", f"the running size does not start at `{pos_p}`")
+    if fwd is not None:
+        # the list the fitting character is appended to must be the LAST piece: the name is (re)bound to each new piece that
+        # is appended to `lines`, and initially to the first piece
+        cur_names = {norm(c.func.value) for b in iff.orelse for c in ast.walk(b) if isinstance(c, ast.Call) and isinstance(c.func, ast.Attribute) and c.func.attr == "append" and c.args and norm(c.args[0]) == ch}
+        okc = len(cur_names) == 1
+        if okc:
+            cur = next(iter(cur_names))
+            rebound = any(isinstance(b, ast.Assign) and norm(b.targets[0]) == cur and norm(b.value) == f"[{ch}]" for b in iff.body) and any(isinstance(c, ast.Call) and norm(c.func) == "lines.append" and c.args and norm(c.args[0]) == cur for b in iff.body for c in ast.walk(b))
+            init_defs = [x for x in walk_local(f.node) if isinstance(x, (ast.Assign, ast.AnnAssign)) and norm(x.targets[0] if isinstance(x, ast.Assign) else x.target) == cur and x.lineno < lp.lineno]
+            lines_init = [x for x in walk_local(f.node) if isinstance(x, (ast.Assign, ast.AnnAssign)) and norm(x.targets[0] if isinstance(x, ast.Assign) else x.target) == "lines" and x.value is not None and norm(x.value) == f"[{cur}]"]
+            okc = rebound and len(init_defs) == 1 and norm(init_defs[0].value) == "[]" and len(lines_init) == 1
+        ctx.check(okc, f.fq, "current piece", f"{m.relpath}:{iff.lineno}", "a fitting character goes to the last piece (the name is rebound to every new piece appended to `lines`)",
+                  "the list a fitting character is appended to is not the last piece of `lines`: characters land in the wrong piece")
     rets = [r for r in walk_local(f.node) if isinstance(r, ast.Return)]
     ctx.check(len(rets) == 1 and norm(rets[0].value) == "[''.join(line) for line in lines]", f.fq, norm(rets[0]) if rets else "?", f.where, "pieces returned in order", "chop_cells does not return the pieces joined in order")
 
@@ -788,7 +833,10 @@ CELL_CALLS = {"cell_len", "get_character_cell_size", "_get_character_cell_size",
 def r13_7(ctx):
     ctx.rule("R13.7", "units: a quantity measured in terminal cells (cell_len, per-character cell sizes, the requested size parameters) is never used where a character count is required (string slice bounds / indices) nor added to one; character counts come from len() of strings / per-character lists")
     n = 0
-    for spec, cparams in CELL_PARAMS.items():
+    work = [(k, set(v)) for k, v in CELL_PARAMS.items()]
+    done = set(CELL_PARAMS)
+    while work:
+        spec, cparams = work.pop(0)
         f = ctx.repo.fn(spec)
         mod = f.module
         aliases = alias_map(f.node)
@@ -868,6 +916,22 @@ def r13_7(ctx):
                 n += 1
                 uu = u(x.args[1])
                 ctx.check(uu != "chars", f.fq, short(x), f"{mod.relpath}:{x.lineno}", "target size passed to set_cell_size is a cell count", f"`{short(x)}` passes a character count where a cell width is required")
+            # helpers of the same class / module that receive a cell quantity are analysed with that parameter in cells
+            if isinstance(x, ast.Call):
+                callee = None
+                fx = x.func
+                if isinstance(fx, ast.Attribute) and isinstance(fx.value, ast.Name) and fx.value.id in ("cls", "self") and f.cls is not None:
+                    callee = f.cls.method(fx.attr)
+                    skip = 1
+                elif isinstance(fx, ast.Name) and fx.id in mod.functions:
+                    callee = mod.functions[fx.id]
+                    skip = 0
+                if callee is not None and callee.fq not in done and callee.fq != f.fq:
+                    cp = {callee.params[i + skip] for i, a in enumerate(x.args) if i + skip < len(callee.params) and u(a) == "cells"}
+                    cp |= {k.arg for k in x.keywords if k.arg and u(k.value) == "cells"}
+                    if cp:
+                        done.add(callee.fq)
+                        work.append((callee.fq, cp))
     ctx.floor(n, 2, "unit-sensitive sites")
 
 
